@@ -83,7 +83,7 @@ ASSUMPTIONS = [
     "file removed; changes of the data folder WHILE processes run are out of scope",
     "a valid pickle of the wrong type is treated as one more damaged state (DESIGN.md C18); it cannot be produced by a kill",
 ]
-REQUIRED_COUNTERS = ["crash_points", "prefixes_in_process", "prefixes_real", "schedules", "children_judged", "folder_checks"]
+REQUIRED_COUNTERS = ["crash_points", "prefixes_in_process", "prefixes_real", "schedules", "children_judged", "folder_checks", "midlife_children"]
 CASE_TIMEOUT_S = 900
 WATCHDOG_S = {"quick": 1500, "thorough": 7200}
 MAX_JOBS = 16
@@ -142,6 +142,9 @@ def cases(tier, seed):  # noqa: C901
         out.append({"kind": "stale", "name": name})
     for st in (["valid", "cold", "empty-Q", "D-half"] if thorough else ["valid", "empty-Q"]):
         out.append({"kind": "cli", "state": st})
+    for which in ("D", "Q", "DQ"):
+        for how in MIDLIFE_DAMAGE:
+            out.append({"kind": "midlife", "which": which, "how": how})
     out.extend(_sched_cases(thorough, seed))
     # spread the heavy kinds over the shards: deterministic shuffle
     random.Random(f"{seed}/C18/order").shuffle(out)
@@ -526,6 +529,59 @@ def _after(ctx, cache: str, wdir: str, ref: dict, what: dict, data: str | None =
 
 # ============================================================================================
 # workloads
+MIDLIFE_DAMAGE = ["empty", "two", "frame", "half", "in-header", "garbage", "wrongtype", "removed"]
+
+
+def _midlife_files(ctx) -> tuple[list[str], list[str]]:
+    """(files loaded before the damage, files first asked for after it): data files of devices outside the reference
+    sample, so that they are not in the prepared cache and every request re-reads and merges the on-disk cache."""
+    data = os.path.join(core.repo_root(), "spsdk", "data", "devices")
+    cand = []
+    for dev in sorted(os.listdir(data)):
+        ddir = os.path.join(data, dev)
+        if not os.path.isdir(ddir):
+            continue
+        fs = sorted(f for f in os.listdir(ddir) if f.endswith((".json", ".yaml")) and f != "database.yaml"
+                    and os.path.getsize(os.path.join(ddir, f)) < 200_000)
+        if len(fs) >= 2:
+            cand.append(os.path.join(ddir, fs[-1]))
+    cand = cand[1::3]
+    if len(cand) < 6:
+        raise core.Inconclusive("too few data files for the mid-life workload")
+    return cand[:2], cand[2:6]
+
+
+def _case_midlife(case, ctx):
+    """The cache is damaged while a process that started on a valid cache is still running."""
+    ref = _reference(ctx)
+    first, extra = _midlife_files(ctx)
+    if "midlife-ref" not in _S:
+        wdir, cache = _prep(ctx, "midlife-ref", ref)
+        r0 = _run({"mode": "midlife", "queries": "full", "first_files": first, "extra_files": extra, "damage": {}}, cache, wdir)
+        if r0["rc"] != 0 or not r0["out"] or r0["out"]["digest"] != ref["digest"]:
+            raise core.Inconclusive(f"mid-life reference child failed: rc={r0['rc']} {r0['err'] or _stderr_tail(r0)}")
+        _S["midlife-ref"] = r0["out"]["extra"]
+    which, how = case["which"], case["how"]
+    dmg = {}
+    for w in which:
+        blob = ref[w]
+        fb = frame_boundaries(blob)
+        dmg[w] = {"empty": 0, "two": 2, "frame": (fb[1] if len(fb) > 1 else fb[0] if fb else 2), "half": len(blob) // 2,
+                  "in-header": (fb[-1] + 4 if fb else 5)}.get(how, how)
+    wdir, cache = _prep(ctx, f"midlife-{which}-{how}", ref)
+    what = {"state": f"running process; cache file(s) {which} damaged afterwards: {how}", "damage": dmg}
+    r = _run({"mode": "midlife", "queries": "full", "first_files": first, "extra_files": extra, "damage": dmg}, cache, wdir)
+    ctx.count("midlife_children")
+    ok = _judge_child(ctx, r, ref, what)
+    if ok and r["out"].get("extra") != _S["midlife-ref"]:
+        ctx.violation("midlife-data-file-answers-skewed", {"what": what, "observed": r["out"].get("extra"), "reference": _S["midlife-ref"]})
+        ok = False
+    if ok:
+        ok = _after(ctx, cache, wdir, ref, what)
+    if ok:
+        ctx.ok(["midlife", which, how], sample=what)
+
+
 def _case_warm(case, ctx):
     ref = _reference(ctx)
     wdir = _mkdir(ctx.workdir, "warm")
@@ -1137,7 +1193,7 @@ def run_case(case, ctx):
     fn = {
         "warm": _case_warm, "crash_write": _case_crash_write, "crash_audit": _case_crash_audit,
         "prefix_inproc": _case_prefix_inproc, "prefix_real": _case_prefix_real, "state": _case_state,
-        "stale": _case_stale, "cli": _case_cli, "sched": _case_sched,
+        "stale": _case_stale, "cli": _case_cli, "sched": _case_sched, "midlife": _case_midlife,
     }.get(kind)
     if fn is None:
         raise core.Inconclusive(f"unknown case kind {kind}")
